@@ -6,6 +6,9 @@ import json
 import subprocess
 import multiprocessing as mp
 import traceback
+sys.setrecursionlimit(50000)
+import threading
+threading.stack_size(512 * 1024 * 1024)
 
 HERE = os.path.dirname(os.path.abspath(__file__))
 sys.path.insert(0, HERE)
@@ -162,6 +165,9 @@ _WFN = [None]
 
 def _worker_init(fn_module, fn_name):
     import importlib
+    import native as _n
+    if _n._D[0] is not None and mp.current_process().name != 'MainProcess':
+        _n._D[0] = None      # never share the parent's driver pipes
     _WI[0] = make_interp()
     mod = importlib.import_module(fn_module)
     _WFN[0] = getattr(mod, fn_name)
